@@ -75,7 +75,9 @@ func simSeen(cs *compState) {
 		})
 	}
 	reason := cs.runUntilQuiet(nil)
-	if reason != "done" {
+	if reason == "max-steps" && !k.Spun() {
+		k.Probe("comp-step-budget-exhausted")
+	} else if reason != "done" {
 		k.Violate("C08", "progress", "seencheck-blocked", fmt.Sprintf("%s: %v", reason, cs.Blocked()))
 	}
 	k.Drain()
